@@ -379,6 +379,11 @@ func (m *Machine) draw0(t *rapid.T, g *GenOpts) Action {
 		a.Actor = actor()
 		a.Op = op()
 		a.Lz = uint64(101 + rapid.IntRange(0, 1).Draw(t, "lz"))
+		if n := len(m.W.Cfg.ExtraChains); n > 0 && pct(t, 25, "extra-chain?") {
+			// the same account as a staker of a further client chain (it has no position there)
+			a.Lz = m.W.Cfg.ExtraChains[uniform(t, n, "extra-lz")]
+			return a
+		}
 		if v != nil && pct(t, 70, "assoc-existing?") {
 			type pr struct {
 				actor, op int
@@ -403,6 +408,10 @@ func (m *Machine) draw0(t *rapid.T, g *GenOpts) Action {
 	case "dissociate":
 		a.Actor = actor()
 		a.Lz = uint64(101 + rapid.IntRange(0, 1).Draw(t, "lz"))
+		if n := len(m.W.Cfg.ExtraChains); n > 0 && pct(t, 25, "extra-chain?") {
+			a.Lz = m.W.Cfg.ExtraChains[uniform(t, n, "extra-lz")]
+			return a
+		}
 		if v != nil && len(v.Associations) > 0 && pct(t, 80, "dissoc-existing?") {
 			ids := sortedKeys(v.Associations)
 			id := ids[uniform(t, len(ids), "dissoc-id")]
